@@ -613,7 +613,7 @@ theorem edges_cover_dependencies (app : App) (hwf : app.WF) (hcov : app.MetaCove
     | arr vs =>
       obtain ⟨first, len, k, hw, hk, rfl⟩ :=
         array_lineParams app hwf a (hok a (List.mem_of_getElem? ha)) vs hargs pa hpa
-      exact absurd hanc (((hwf.array_ok _ first len hw).2 k hk).2.2.2.2 pb hpbs)
+      exact absurd hanc (((hwf.array_ok _ first len hw).2 k hk).2.2.2 pb hpbs)
   -- the scan from `b`'s address
   have hfin : ∃ src, Src app.apropos (buildMap (ls.map (·.addr)) 0 []) b.addr src ∧
       (src = ia ∨ Relation.TransGen (fun i j => j ∈ deps.getD i []) ia src) := by
